@@ -31,6 +31,10 @@ P = {
   "All 8160 embedded table entries compared with independently computed (j+1)*256^i*G (exhaustive over the file); decoder index map and canonical-only decoding obtained by abstractly interpreting the initialiser on a symbolic file; odd tables = entries 16(j+1)-1; both fixed-base ladders recognised as sum over all 64 nibbles = s*G; affine/huge lookups enumerated for every index (16/256) incl. the masked idx=0 case; unsafe prefix reinterpretation layout-valid.",
   "Trusted: SEC 2 generator, independent big-integer arithmetic (internal/refmath), C01/C03, C19 for the assembly lookup; go/ssa; the checker.",
   "exhaustive constant verification by independent arithmetic + abstract interpretation over go/ssa in a Z/n-module domain"),
+ "C12": ("other",
+  "Static decision for every byte string: accept sets (propositional normal forms over the atoms of a strict-DER reader specification) of ParseASN1Signature (one SEQUENCE, nothing trailing, two minimal non-negative INTEGERs, nothing trailing inside, each a canonical non-zero scalar of 1..32 bytes; bytesToCanonicalScalar validated for every length), of the compact parsers (64/65 bytes, canonical non-zero halves; values d[0:32], d[32:64], d[64]) and of ParseASN1PublicKey (SEQUENCE{SEQUENCE{ecPublicKey, secp256k1}, BIT STRING with no unused bits holding a valid SEC 1 key}, nothing trailing at any level; this rule found the genuine unused-bits defect, now fixed); the BIP-66 predicate extracted from the CFG is equivalent to the BIP's 14-rule reference predicate (18 atoms, every consistent valuation); every index / slice / slice-to-array conversion in the parsers is proven in bounds from the dominating checks by linear entailment (Fourier-Motzkin; 33 obligations in the BIP-66 predicate); builders emit exactly the structures the parsers accept (DER terms); no panic reachable in any parser.",
+  "Trusted: x/crypto v0.11.0 cryptobyte implements strict DER as documented (the reader / builder are specified, not analysed); C02, C06, C10; go/ssa; the checker. Panics inside the standard library are out of scope.",
+  "abstract interpretation over go/ssa against a DER reader/builder specification; accept-set formulas compared as normal forms; linear-constraint (Fourier-Motzkin) bounds proofs"),
  "C16": ("other",
   "DoubleScalarMultBasepointVartime = u1*G + u2*P and MultiScalarMult(Vartime) = sum s_i*P_i decided by abstract interpretation in the Z/n-module domain for list lengths 0..3 with every receiver-among-inputs aliasing, mismatched lengths panic, length 1 delegates to the GLV multiply; a loop-shape rule (loops run j = 0..l-1 touching entry j only) extends the unrolled instances to every length.",
   "Trusted: C03-C05; the extension from lengths 0..3 to all lengths rests on the loop-shape rule; go/ssa; the checker.",
@@ -61,7 +65,7 @@ P = {
   "abstract interpretation over go/ssa against lower-layer specifications; accept-set formulas compared as propositional normal forms"),
 }
 
-CLAIMED = ["C01", "C02", "C03", "C04", "C05", "C06", "C07", "C08", "C09", "C10", "C11", "C16", "C19"]
+CLAIMED = ["C01", "C02", "C03", "C04", "C05", "C06", "C07", "C08", "C09", "C10", "C11", "C12", "C16", "C19"]
 
 REASON_PENDING = "check under construction in this session (see DESIGN.md section 2); not yet claimed"
 
